@@ -469,15 +469,17 @@ class ODE:
         tuple[atoms.Assignment, ...]
             The sorted assignments
         """
-        intermediates = self.intermediates
-        if remove_unused:
-            deps = self.dependents()
-            intermediates = tuple([a for a in intermediates if a.name in deps])
-
+        # Always sort the full set of assignments so that the order of the
+        # state derivatives (and hence the state indices) does not depend
+        # on whether unused variables are removed
         names = sort_assignments(
-            assignments=intermediates + self.state_derivatives,
+            assignments=self.intermediates + self.state_derivatives,
             assignments_only=assignments_only,
         )
+        if remove_unused:
+            deps = self.dependents()
+            unused = {a.name for a in self.intermediates if a.name not in deps}
+            names = tuple([name for name in names if name not in unused])
         return tuple([cast(atoms.Assignment, self[name]) for name in names])
 
     def sorted_state_derivatives(self) -> tuple[atoms.StateDerivative, ...]:
